@@ -21,7 +21,14 @@ def plot_data(idnt, figure=None, add_text="", path=None):
     axin.plot(idnt["tip position"] * 1e6, idnt["force"] * 1e9, label="data")
     axin.legend(loc="upper right")
     axin.grid()
-    cp = idnt.fit_properties["params_fitted"]["contact_point"].value * 1e6
+    if "params_fitted" in idnt.fit_properties:
+        params = idnt.fit_properties["params_fitted"]
+        text = "Fit parameters:\n"
+    else:
+        # The fit was not successful (e.g. no data in the fitting interval)
+        params = idnt.fit_properties["params_initial"]
+        text = "Fit not successful!\nInitial parameters:\n"
+    cp = params["contact_point"].value * 1e6
     xmin = idnt["tip position"].min() * 1e6
     dx = np.abs(cp - xmin)
     ymin = idnt["force"][idnt["segment"] == 0].min() * 1e9
@@ -41,9 +48,7 @@ def plot_data(idnt, figure=None, add_text="", path=None):
     axin2.axhline(0, color="gray")
     axin2.set_ylim(-dy/10, dy/10)
     # display fitted parameters
-    text = "Fit parameters:\n"
     text += "model: {}\n".format(idnt.fit_properties["model_key"])
-    params = idnt.fit_properties["params_fitted"]
     for p in params:
         text += "{}={:.2e}\n".format(p, params[p].value)
     text += "\n\n" + add_text
